@@ -172,7 +172,12 @@ def fill_obligations(chk, F, system, rows, tier, rng):
         try:
             paths, proxy, ex = FC.run_fill(F, df, system, explorer=ex)
         except (SymError, X.PathBudgetExceeded) as e:
-            chk.inconclusive(name, str(e))
+            # the symbolic exploration did not finish (the code took comparisons the cut does not cover): look at the real code
+            # on concrete members of the family before calling it inconclusive
+            nv0 = len(chk.violations)
+            replay_fill(chk, F, system, basis, order, spell, nrows, rng, name, "exploration stopped: %s" % e, zero_at=zero_at, quiet=True)
+            if len(chk.violations) == nv0:
+                chk.inconclusive(name, str(e))
             continue
         ok = True
         detail = dict(supplied=order, paths=len(paths), cuts=len(ex.cuts))
@@ -231,7 +236,7 @@ def fill_obligations(chk, F, system, rows, tier, rng):
                                     and k in {c.lower() for c in paths[0].result.columns}} if ok else None))
 
 
-def replay_fill(chk, F, system, basis, order, spell, nrows, rng, name, what, env=None, zero_at=None):
+def replay_fill(chk, F, system, basis, order, spell, nrows, rng, name, what, env=None, zero_at=None, quiet=False):
     """Concrete replay: a random (or model) invariant tensor, real numpy, real fill_cij."""
     for attempt in range(4):
         coeffs = [[rng.uniform(50, 400) * rng.choice((1, 1, -0.3)) for _ in basis] for _ in range(nrows)]
@@ -286,7 +291,8 @@ def replay_fill(chk, F, system, basis, order, spell, nrows, rng, name, what, env
                 chk.violation("%s:fill-renames" % system, "fill_cij(%s) renames supplied column %s" % (system, spell.get(k, k)),
                               dict(system=system, table=data))
                 return
-    chk.harness_error("%s: '%s' did not reproduce on the real code" % (name, what))
+    if not quiet:
+        chk.harness_error("%s: '%s' did not reproduce on the real code" % (name, what))
 
 
 def elast_data_obligation(chk, F, system, rows, rng):
